@@ -635,10 +635,14 @@ class Gen(object):
                     # the structure's own size as a value (never a source: nothing the size depends on may use it)
                     c = r.choice([0, 1, 8, 255])
                     f = Field(name, "virtual", expr=op(r.choice(["+", "-", "*"]), ref("$size_in_bytes"), num(c)) if c else ref("$size_in_bytes"))
-                elif vk < 0.74:
+                elif vk < 0.78:
                     v = r.choice([0, 1, 7, 255, 65536, -1, 2 ** 31, 2 ** 32, 2 ** 63 - 1, -(2 ** 63)])
                     f = Field(name, "virtual", expr=num(v))
-                    if self.p["allow_requires"] and r.random() < 0.3:
+                    if self.p["allow_cond"] and r.random() < 0.5:
+                        # a constant under a condition that is itself a constant (true or false)
+                        f.cond = r.choice([("bool", False), ("bool", True), op(">", op("+", num(100), num(0)), num(128)),
+                                           op("<", num(1), num(2)), op("==", num(3), num(4))])
+                    if self.p["allow_requires"] and r.random() < 0.55:
                         # a constant may pass or fail its own [requires]
                         f.requires = op(r.choice(["<", ">=", "!=", "=="]), ref("this"), num(r.choice([0, 5, 100, v])))
                 else:
